@@ -120,7 +120,7 @@ def main():
         }],
         "checks": checks,
         "not_applicable": na,
-        "notes": "All checks rebuild the native engine from /repo's working tree (content-hash cache in /verif/.build) and import strengths from /repo/src. VERIF_REPO overrides the tree (used for seeded-change experiments).",
+        "notes": "All checks rebuild the native engine from /repo's working tree (content-hash cache in /verif/.build) and import strengths from /repo/src. Engine objects come from the library's own factories (engine_collection) with the native library redirected to that fresh build. VERIF_REPO overrides the tree and VERIF_OUT the place evidence / replays are written (both used only for seeded-change and refactoring experiments on scratch copies).",
     }
     with open(os.path.join(HERE, "MANIFEST.json"), "w", encoding="utf-8") as f:
         json.dump(m, f, indent=1, ensure_ascii=False)
